@@ -114,10 +114,6 @@ func (srv *Session) consumeSingleCommand(ctx context.Context, reader *buffer.Rea
 	srv.logger.Debug("<- incoming command", slog.Int("length", length), slog.String("type", t.String()))
 	err = srv.handleCommand(ctx, conn, t, reader, writer)
 	srv.wg.Done()
-	if errors.Is(err, io.EOF) {
-		return nil
-	}
-
 	return err
 }
 
